@@ -13,6 +13,8 @@ RULE = ("valid DFA definitions: random (1-6 states, 1-3 symbols, 7 name pools in
         "larger dense DFAs (6-9 states), dead / non-final initial state, empty and universal languages, already-minimal inputs (the model's own result fed "
         "back), states named -1, -2 (trap-name collision); each evaluated through minify(), minify(retain_names=True), "
         "to_partial(minify=True, retain_names=False/True), to_partial(minify=False) and minify().minify(); "
+        "every case is also run through the mirror model of the Hopcroft worklist under four pop schedules "
+        "(oldest first, a random one, newest-first / smallest-id / largest-id in rotation) and shuffled symbol orders; "
         "distinct = distinct canonical input; non-trivial = the minimal automaton has fewer states than the input "
         "(something is merged or dropped)")
 
@@ -226,6 +228,30 @@ def py_nonminimal_reason(r):
     return None
 
 
+# ---------- schedules for the mirror model of the Hopcroft worklist (prop 5, ops 5 and 6) ----------
+ROTATE = [("newest_first", 1), ("smallest_id", 2), ("largest_id", 3)]
+
+
+def mirror_requests(rng, src, nsy, serial):
+    """[(label, which, op, tree)]: which = 1 the kept states of minify(), 2 those of to_partial()."""
+    out = []
+    nat = list(range(nsy))
+    for which in (1, 2):
+        shuf = nat[:]
+        rng.shuffle(shuf)
+        rot_name, rot_mode = ROTATE[(serial + which) % 3]
+        scheds = [("oldest_first", 0, [], nat),
+                  ("random", rng.choice([0, 1]), [rng.randrange(8) for _ in range(16)], shuf),
+                  (rot_name, rot_mode, [], list(reversed(nat)))]
+        for label, mode, choices, sord in scheds:
+            out.append((label, which, 5, enc.tree([src, which, mode, choices, sord, 0])))
+        shuf2 = nat[:]
+        rng.shuffle(shuf2)
+        out.append(("coded", which, 6, enc.tree([src, which, rng.choice([0, 1, 2, 3]),
+                                                  [rng.randrange(8) for _ in range(16)], shuf2, rng.choice([0, 1, 2])])))
+    return out
+
+
 # ---------- one batch of cases ----------
 def check_defs(ctx, items):
     """items: list of (tag, ddef).  Two driver round trips for the whole list."""
@@ -236,19 +262,23 @@ def check_defs(ctx, items):
         st = enc.Renum(enc.dfa_names(d))
         sy = enc.SymMap(d.input_symbols)
         src = enc.enc_dfa(d, st, sy)
-        prepared.append((tag, ddef, d, st, sy, src))
+        mreqs = mirror_requests(ctx.rng, src, len(d.input_symbols), len(prepared))
+        prepared.append((tag, ddef, d, st, sy, src, len(req), mreqs))
         for op in (1, 2, 3):
             req.append((5, op, enc.tree(src)))
+        for _, _, mop_, t_ in mreqs:
+            req.append((5, mop_, t_))
     ans = ctx.driver.batch(req)
     req2, plan = [], []
-    for i, (tag, ddef, d, st, sy, src) in enumerate(prepared):
-        model = {1: enc.dec_res(ans[3 * i]), 2: enc.dec_res(ans[3 * i + 1]), 3: enc.dec_res(ans[3 * i + 2])}
+    for i, (tag, ddef, d, st, sy, src, base0, mreqs) in enumerate(prepared):
+        model = {1: enc.dec_res(ans[base0]), 2: enc.dec_res(ans[base0 + 1]), 3: enc.dec_res(ans[base0 + 2])}
+        mirror = [(label, which, mop_, enc.dec_res(ans[base0 + 3 + j])) for j, (label, which, mop_, _) in enumerate(mreqs)]
         results = {}
         for name, mop, call in OPS:
             results[name] = outcome(lambda: call(d))
         twice = outcome(lambda: d.minify().minify())
         entry = {"tag": tag, "ddef": ddef, "d": d, "st": st, "sy": sy, "src": src, "model": model,
-                 "results": results, "twice": twice, "slots": {}}
+                 "results": results, "twice": twice, "slots": {}, "mirror": mirror, "cslots": {}}
         for name, mop, call in OPS:
             r = results[name]
             mres = model[mop]
@@ -260,6 +290,12 @@ def check_defs(ctx, items):
             req2.append((0, 1, enc.tree([rt, src])))
             req2.append((0, 1, enc.tree([rt, mdfa])))
             req2.append((5, 4, enc.tree(rt)))
+            # the implementation's result against _minify as coded (mirror model, op 6)
+            if mop != 3:
+                coded = [mm for (lb, wh, o6, mm) in mirror if o6 == 6 and wh == mop]
+                if coded and coded[0][0] == "ok":
+                    entry["cslots"][name] = (len(req2), coded[0][1][0])
+                    req2.append((0, 1, enc.tree([rt, coded[0][1][0]])))
         plan.append(entry)
     ans2 = ctx.driver.batch(req2)
     for e in plan:
@@ -327,6 +363,55 @@ def judge(ctx, e, ans2):
                 problems.append((f"{name}: result has {isz} states, expected {msz} (reachable and co-accessible + initial)", False))
             if trim[1] != 1 and not lang_bad:
                 problems.append((f"{name}: result keeps an unreachable or dead non-initial state", False))
+    # ---- the mirror model of the Hopcroft worklist (theorems C05_hopcroft_faithful / _partition /
+    #      C05_coded_*): every schedule must give the specification model's partition, and the
+    #      implementation's retained names must be that partition as well ----
+    for label, which, mop_, mm in e["mirror"]:
+        spec = e["model"][which]
+        if mm[0] != "ok":
+            problems.append((f"mirror model ({label}, {'minify' if which == 1 else 'to_partial'}): error {mm[1]} "
+                             f"(fuel/decoding) - the Hopcroft mirror did not terminate within |Q|+1 pops", False))
+            continue
+        if spec[0] != "ok":
+            continue
+        want = {tuple(b) for b in spec[1][1]}
+        got_m = {tuple(b) for b in (mm[1][0] if mop_ == 5 else mm[1][1])}
+        ctx.tally("mirror_schedule_" + label)
+        if got_m != want:
+            problems.append((f"mirror model ({label}): the Hopcroft partition {sorted(got_m)!r} differs from the "
+                             f"specification model's {sorted(want)!r} (contradicts C05_hopcroft_faithful)", False))
+        for name, mop, call in OPS:
+            if mop != which or not name.endswith("_rn"):
+                continue
+            r = e["results"][name]
+            if r[0] != "ok" or not got_m:
+                continue
+            try:
+                got_i = {tuple(sorted(st(q) for q in s_)) for s_ in r[1].states}
+            except (TypeError, KeyError):
+                got_i = None
+            if got_i != got_m:
+                problems.append((f"{name}: retained names {sorted(r[1].states, key=repr)!r} are not the partition the mirror "
+                                 f"model of the Hopcroft loop ends with under schedule {label}: "
+                                 f"{[[st.names[i] for i in b] for b in sorted(got_m)]!r}", False))
+    for name, (slot, cdfa) in e["cslots"].items():
+        vs_coded = ans2[slot]
+        res = e["results"][name][1]
+        dc = enc.dec_res(vs_coded[4])
+        if dc[0] != "ok":
+            problems.append((f"{name}: comparator ran out of fuel (coded mirror)", False))
+            continue
+        ctx.tally("coded_mirror_compared")
+        if dc[1] != []:
+            w = sy.unword(dc[1][0])
+            conf = bool(res.accepts_input(w)) != bool(d.accepts_input(w))
+            problems.append((f"{name}: result differs from the coded mirror model's result on {w!r}", conf))
+        elif vs_coded[2] != vs_coded[3]:
+            problems.append((f"{name}: result has {vs_coded[2]} states, _minify as coded (mirror model) gives {vs_coded[3]}",
+                             py_nonminimal_reason(res) is not None))
+        elif bool(res.allow_partial) != bool(cdfa[5]):
+            ctx.structural += 1
+            ctx.tally("structural_partial_flag_differs_from_coded_mirror")
     # idempotence on the implementation alone
     t = e["twice"]
     once = e["results"]["minify"]
@@ -496,4 +581,6 @@ def replay(ctx, case):
             else:
                 print(f"  impl {name}: raises {r[2]}")
             print(f"  model {name}: {e['model'][mop]}")
+        for label, which, mop_, mm in e["mirror"]:
+            print(f"  mirror {'minify' if which == 1 else 'to_partial'} schedule={label} op={mop_}: {mm}")
     print("replay:", "VIOLATION reproduced" if ctx.violations else "no disagreement")
